@@ -3,8 +3,7 @@ from .common import *
 from gen import fields as G
 
 
-def run(tier, only=None):
-    chk = Check('C01', tier)
+def build(tier, only, chk):
     jobs = []
     for b in bindings(only, chk):
         src, n = G.c01_reads(b)
@@ -20,6 +19,12 @@ def run(tier, only=None):
                             ['src/avtp/Utils.c'], unwind=70, unwindset=WALKER, timeout=1500,
                             meta={'descriptor': 'quadlet<4, offset=%d, bits<=64, symbolic' % off,
                                   'buffer_bytes': 28}))
+    return jobs
+
+
+def run(tier, only=None):
+    chk = Check('C01', tier)
+    jobs = build(tier, only, chk)
     chk.run(jobs)
     chk.assumptions = STD_ASSUME + [
         'descriptor sweep (thorough tier) bounded to start quadlet 0..3; the walker arithmetic depends on the quadlet only through 4*q']
